@@ -177,7 +177,14 @@ def decl_contract(cls: str, method: str):
         for f in S.reach_def(ct, cls, Sx):
             c.requires(f)
         for t in args.values():
-            c.requires(S.float_range(t))
+            # type invariant of inputs: every schema object handed in is itself a DSL-built schema
+            c.requires(z3.Implies(S.is_schema(ct, t), z3.And(S.wf(t), S.reach(t))), "arg-schemas-reachable")
+            if cls == "ListSchema" and method == "__call__":
+                j = z3.Int("aj")
+                c.requires(z3.Implies(M.isinstance_f(ct, t, "list"), z3.ForAll(
+                    [j], z3.Implies(z3.And(0 <= j, j < M.llen(t), S.is_schema(ct, M.lat(t, j))),
+                                    z3.And(S.wf(M.lat(t, j)), S.reach(M.lat(t, j)))), patterns=[M.lat(t, j)])),
+                    "arg-items-reachable")
         P = view(Sx, cls)
         rc, upd = SPEC[(cls, method)](ct, P, args)
         c.raises("DeclarationError", props=("C10", "C11"))
@@ -186,6 +193,7 @@ def decl_contract(cls: str, method: str):
         c.meta = {"method": method, "params": params}
         c.ensures("registry", lambda r, post: S.registry_is(ct, cls, r, Sx, upd), ("C10", "C11", "C06"))
         c.ensures("invariant", lambda r, post: z3.And(*S.reach_def(ct, cls, r)), ("C10",))
+        c.ensures("unfold", lambda r, post: S.unfold_defs(ct, cls, r), ("C10",))
         if cls == "FloatSchema" and method in ("__call__", "min", "max"):
             c.known_region("C10-float-nan", f"FloatSchema.{method}:ensures[invariant]", M.is_FNanV(args["value"]))
     return body
@@ -207,6 +215,7 @@ REFINEMENTS = {
     "IntSchema": ["min", "max"],
     "FloatSchema": ["min", "max", "precision"],
     "StrSchema": ["len", "alphabet", "contains", "regex"],
+    "ListSchema": ["len"],
 }
 
 
@@ -248,3 +257,112 @@ def _c11(lc):
                 same = z3.And(*[PA[n] == PB[n] for n in S.PROP_NAMES[cls]])
                 lc.oblige(f"{cls}.{m1}<->{m2}:same-schema", hyp + [z3.Not(raiseA), z3.Not(raiseB)], same,
                           inputs, meta, text=f"{m1} then {m2} yields the same registry as {m2} then {m1}")
+
+
+# ----------------------------------------------------------------------------- ListSchema
+LS = T_ + "_list_schema.py"
+transparent(LS, "ListSchema.__declare_len", "ListSchema.__declare_min_len", "ListSchema.__declare_max_len")
+
+
+def elems_ok(ct, x: Any) -> Any:
+    """every item is a Schema or `...`, `...` only first or last, and not exactly [..., ...]"""
+    j = z3.Int("ej")
+    m = M.llen(x)
+    return z3.And(
+        z3.ForAll([j], z3.Implies(z3.And(0 <= j, j < m),
+                                  z3.And(z3.Or(S.is_schema(ct, M.lat(x, j)), M.lat(x, j) == M.EllV),
+                                         z3.Implies(M.lat(x, j) == M.EllV, z3.Or(j == 0, j == m - 1)))),
+                  patterns=[M.lat(x, j)]),
+        z3.Not(z3.And(m == 2, M.lat(x, 0) == M.EllV, M.lat(x, 1) == M.EllV)))
+
+
+@spec("ListSchema", "__call__", ["elements_or_type"])
+def _list_call(ct, P, a):
+    x = a["elements_or_type"]
+    is_list = M.isinstance_f(ct, x, "list")
+    is_sch = S.is_schema(ct, x)
+    declared_any = z3.Or(*[D(P[n]) for n in S.PROP_NAMES["ListSchema"]])
+    rc = z3.Or(z3.Not(z3.Or(is_list, is_sch)), declared_any, z3.And(z3.Not(is_sch), z3.Not(elems_ok(ct, x))))
+    return rc, {"elements": z3.If(is_sch, P["elements"], x), "type": z3.If(is_sch, x, P["type"])}
+
+
+def _list_len(ct, P, a):
+    x, y = a["val_or_min"], a["max"]
+    pre = z3.Or(D(P["len"]), D(P["min_len"]), D(P["max_len"]))
+    E = P["elements"]
+    hasE = D(E)
+    n = M.nonell_count(E)
+    full = n == M.llen(E)
+    bad_max = lambda t: z3.Or(z3.Not(is_int(t)), z3.And(hasE, M.int_of(t) < n))
+    bad_min = lambda t: z3.Or(z3.Not(is_int(t)), z3.And(hasE, M.int_of(t) > n))
+    bad_len = lambda t: z3.Or(z3.Not(is_int(t)),
+                              z3.And(hasE, z3.If(full, M.int_of(t) != n, M.int_of(t) < n)))
+    case_max = x == M.EllV
+    case_len = z3.And(x != M.EllV, y == M.NilV)
+    case_min = z3.And(x != M.EllV, y != M.NilV, y == M.EllV)
+    rc = z3.Or(pre, z3.If(case_max, bad_max(y), z3.If(case_len, bad_len(x),
+                          z3.If(case_min, bad_min(x), z3.Or(bad_min(x), bad_max(y))))))
+    upd = {"len": z3.If(case_len, x, P["len"]),
+           "min_len": z3.If(z3.Or(case_max, case_len), P["min_len"], x),
+           "max_len": z3.If(case_max, y, z3.If(z3.Or(case_len, case_min), P["max_len"], y))}
+    return rc, upd
+
+
+spec("ListSchema", "len", ["val_or_min", "max"])(_list_len)
+for _m in ("__call__", "len"):
+    contract(LS, f"ListSchema.{_m}", props=("C10", "C11", "C07"), group="declaration")(decl_contract("ListSchema", _m))
+
+
+@invariant(LS, "ListSchema.__call__", loop=0)
+def _inv_list_call(L):
+    ct = L.ct
+    x = L.v("elements_or_type")
+    m = M.llen(x)
+    j = z3.Int("ij")
+    return z3.ForAll([j], z3.Implies(z3.And(0 <= j, j < L.i),
+                                     z3.And(z3.Or(S.is_schema(ct, M.lat(x, j)), M.lat(x, j) == M.EllV),
+                                            z3.Implies(M.lat(x, j) == M.EllV, z3.Or(j == 0, j == m - 1)))),
+                     patterns=[M.lat(x, j)])
+
+
+# ----------------------------------------------------------------------------- DictSchema.__call__ (assumed for now)
+def plain_key(ct, k: Any) -> Any:
+    return z3.And(k != M.EllV, z3.Not(M.isinstance_f(ct, k, "optional")))
+
+
+@contract(T_ + "_dict_schema.py", "DictSchema.__call__", props=("C10",), trusted=True,
+          note="assumed (body with loop L16 not yet verified): only DeclarationError; for an input dict whose keys "
+               "are plain (no `...`, no optional(...)) and whose values are schemas, the result's key table maps each "
+               "key to (schema, False) and has no other key")
+def _dict_call(c):
+    ct = c.ct
+    Sx = c.sym("self", "DictSchema")
+    keys = c.sym("keys")
+    c.raises("DeclarationError")
+    x = z3.Const("dk", Obj)
+    isdict = M.isinstance_f(ct, keys, "dict")
+    all_plain = z3.ForAll([x], z3.Implies(M.has(keys, x), z3.And(plain_key(ct, x), S.is_schema(ct, M.dget(keys, x)))),
+                          patterns=[M.has(keys, x)])
+    c.raises_when("DeclarationError", z3.Or(z3.Not(isdict), S.declared(Sx, "keys"),
+                                            z3.And(isdict, z3.Not(all_plain), M.fresh("dict_call_other", M.B))))
+    c.returns("DictSchema")
+
+    def post(r, post_):
+        K = S.prop(r, "keys")
+        pair = M.dget(K, x)
+        bk = M.fresh("badkey")      # explicit witness of `not all_plain` (no nested quantifier)
+        not_plain_at = z3.And(M.has(keys, bk), z3.Not(z3.And(plain_key(ct, bk), S.is_schema(ct, M.dget(keys, bk)))))
+        return z3.And(*S.shape(ct, r, "DictSchema"), S.declared(r, "keys"), M.isinstance_f(ct, K, "dict"),
+                      z3.Or(not_plain_at, z3.And(
+                          M.klen(K) == M.klen(keys),
+                          z3.ForAll([x], M.has(K, x) == M.has(keys, x), patterns=[M.has(K, x), M.has(keys, x)]),
+                          z3.ForAll([x], z3.Implies(M.has(keys, x), z3.And(
+                              M.is_Ref(pair), M.rcls(pair) == ct.id("tuple"), M.llen(pair) == 2,
+                              M.lat(pair, 0) == M.dget(keys, x), M.lat(pair, 1) == M.mk_bool(False))),
+                              patterns=[M.dget(K, x)]))))
+    c.ensures("keys", post)
+    c.ensures("unfold", lambda r, post_: S.unfold_defs(ct, "DictSchema", r))
+    vals_ok = z3.ForAll([x], z3.Implies(z3.And(M.has(keys, x), S.is_schema(ct, M.dget(keys, x))),
+                                        z3.And(S.wf(M.dget(keys, x)), S.reach(M.dget(keys, x)))),
+                        patterns=[M.has(keys, x)])
+    c.ensures("members-carry-over", lambda r, post_: z3.Implies(vals_ok, z3.And(S.wf(r), S.reach(r))))
